@@ -34,9 +34,9 @@ func planC09(tier string, seed int64) (*core.Plan, error) {
 		return nil, err
 	}
 	p := &core.Plan{Property: "C09", Tier: tier, Seed: seed, Level: "model_checking",
-		Models: []core.ModelRun{model},
-		Rule:   "seeded single edits and histories (6-13 steps) on S0 and S1 whose pre-state and source each select a random case of every choice (two choices per container, choice nested in a case, shorthand cases holding a leaf / container / list, choice inside list entries), all strategies, every store kind that implements case detection x source kind (JSON text, each store); non-trivial: source and target select different cases of some choice",
-		NonTrivial: func(r core.Rec) bool { return canonJSON(r["pre"]) != canonJSON(r["post"]) },
+		Models:      []core.ModelRun{model},
+		Rule:        "seeded single edits and histories (6-13 steps) on S0 and S1 whose pre-state and source each select a random case of every choice (two choices per container, choice nested in a case, shorthand cases holding a leaf / container / list, choice inside list entries), all strategies, every store kind that implements case detection x source kind (JSON text, each store); non-trivial: source and target select different cases of some choice",
+		NonTrivial:  func(r core.Rec) bool { return canonJSON(r["pre"]) != canonJSON(r["post"]) },
 		Assumptions: []string{"the legacy struct-backed Reflect node implements no Choose and is not a subject of C09"},
 	}
 	kinds := []string{"upsert", "upsert", "upsert", "insert", "update"}
@@ -66,7 +66,7 @@ func choiceCases(f *fx.Fixture, r *rand.Rand, n, h int, kinds, stores, srcs []st
 		nodes := gen.Nodes(pre)
 		at := nodes[r.Intn(len(nodes))]
 		emit(core.Case{"kind": "edit", "fixture": f.Name, "store": stores[i%len(stores)], "pre": pre,
-			"ops": []editOp{{K: kinds[r.Intn(len(kinds))], At: at, S: g.Subtree(at), Src: srcs[r.Intn(len(srcs))]}}})
+			"ops": []editOp{{K: kinds[r.Intn(len(kinds))], At: at, S: g.Subtree(at), Src: srcs[r.Intn(len(srcs))], Into: r.Intn(4) == 0, Dup: r.Intn(5) == 0}}})
 	}
 	for i := 0; i < h; i++ {
 		pre := g.Subtree(abs.Path{})
@@ -79,7 +79,7 @@ func choiceCases(f *fx.Fixture, r *rand.Rand, n, h int, kinds, stores, srcs []st
 			if r.Intn(2) == 0 {
 				at = abs.Path{}
 			}
-			ops = append(ops, editOp{K: kinds[r.Intn(len(kinds))], At: at, S: g.Subtree(at), Src: srcs[r.Intn(len(srcs))]})
+			ops = append(ops, editOp{K: kinds[r.Intn(len(kinds))], At: at, S: g.Subtree(at), Src: srcs[r.Intn(len(srcs))], Into: r.Intn(4) == 0, Dup: r.Intn(6) == 0})
 		}
 		emit(core.Case{"kind": "edit", "fixture": f.Name, "store": stores[i%len(stores)], "pre": pre, "ops": ops, "history": true})
 	}
@@ -160,10 +160,12 @@ func deleteHistories(f *fx.Fixture, r *rand.Rand, n int, stores, srcs []string, 
 }
 
 type editOp struct {
-	K   string    `json:"k"`
-	At  abs.Path  `json:"at"`
-	S   *abs.Tree `json:"s"`
-	Src string    `json:"src"`
+	K    string    `json:"k"`
+	At   abs.Path  `json:"at"`
+	S    *abs.Tree `json:"s"`
+	Src  string    `json:"src"`
+	Into bool      `json:"into"`
+	Dup  bool      `json:"dup"`
 }
 
 // randomEditCases: seeded single-step edits: random pre tree, random entry
@@ -179,7 +181,7 @@ func randomEditCases(f *fx.Fixture, r *rand.Rand, n int, kinds []string, stores,
 		store := stores[i%len(stores)]
 		src := srcs[r.Intn(len(srcs))]
 		emit(core.Case{"kind": "edit", "fixture": f.Name, "store": store, "pre": pre,
-			"ops": []editOp{{K: k, At: at, S: s, Src: src}}})
+			"ops": []editOp{{K: k, At: at, S: s, Src: src, Into: r.Intn(4) == 0, Dup: r.Intn(5) == 0}}})
 	}
 }
 
@@ -237,7 +239,7 @@ func randomHistories(f *fx.Fixture, r *rand.Rand, n int, kinds []string, stores,
 			at := nodes[r.Intn(len(nodes))]
 			src := g.Subtree(at)
 			k := kinds[r.Intn(len(kinds))]
-			ops = append(ops, editOp{K: k, At: at, S: src, Src: srcs[r.Intn(len(srcs))]})
+			ops = append(ops, editOp{K: k, At: at, S: src, Src: srcs[r.Intn(len(srcs))], Into: r.Intn(4) == 0, Dup: r.Intn(6) == 0})
 			if k == "upsert" {
 				cur = src // later entry points may come from what was just written
 				if len(at) > 0 {
